@@ -341,6 +341,13 @@ def _levels(s: Summary) -> T.Tuple[int, ...]:
     return tuple(x[0] for x in s.exit_self + s.ret)
 
 
+def _uncast(e: T.Optional[ast.AST]) -> T.Optional[ast.AST]:
+    """`T.cast(X, v)` / `typing.cast(X, v)` is `v` (a typing no-op at run time)."""
+    while isinstance(e, ast.Call) and attr_chain(e.func) in ('T.cast', 'typing.cast', 'cast') and len(e.args) == 2 and not e.keywords:
+        e = e.args[1]
+    return e
+
+
 class Analysis:
     """One function, one entry assumption."""
 
@@ -399,9 +406,13 @@ class Analysis:
             body = [x for x in deco.body if not (isinstance(x, ast.Expr) and isinstance(x.value, ast.Constant))]
             params = [a.arg for a in deco.args.args]
             if len(params) != 1 or len(body) != 2 or not isinstance(body[0], ast.FunctionDef) or not isinstance(body[1], ast.Return) \
-                    or attr_chain(body[1].value) != body[0].name:
+                    or attr_chain(_uncast(body[1].value)) != body[0].name:
                 return unknown
             w = body[0]
+            # the wrapper itself may only carry functools.wraps(<the method>): anything else may replace it
+            if any(not (isinstance(wd, ast.Call) and attr_chain(wd.func) in ('wraps', 'functools.wraps') and len(wd.args) == 1
+                        and attr_chain(wd.args[0]) == params[0]) for wd in w.decorator_list):
+                return unknown
             wbody = [x for x in w.body if not (isinstance(x, ast.Expr) and isinstance(x.value, ast.Constant))]
             wparams = [a.arg for a in w.args.args]
             last = wbody[-1] if wbody else None
